@@ -40,6 +40,11 @@ type propCfg struct {
 	// shards in the thorough tier, each for FuzzSeconds with all cores.
 	Fuzz        []string
 	FuzzSeconds int
+	// OldTimers: odd-numbered shards run with GODEBUG=asynctimerchan=1, i.e. with
+	// the timer-channel semantics a main module with a go directive below 1.23
+	// gets (tcell's own go.mod says 1.12); even-numbered shards get the
+	// semantics of this module's go 1.23.
+	OldTimers bool
 }
 
 var props = map[string]propCfg{}
@@ -70,7 +75,7 @@ func init() {
 	for _, id := range []string{"C01", "C04", "C09", "C13", "C14", "C16", "C17", "C18"} {
 		reg(id, propCfg{})
 	}
-	reg("C02", propCfg{Fuzz: []string{"FuzzPartition", "FuzzPartitionGrammar", "FuzzEpochs"}, FuzzSeconds: 90})
+	reg("C02", propCfg{QuickShards: 2, OldTimers: true, Fuzz: []string{"FuzzPartition", "FuzzPartitionGrammar", "FuzzEpochs"}, FuzzSeconds: 90})
 	reg("C03", propCfg{Fuzz: []string{"FuzzConcat"}, FuzzSeconds: 60})
 	reg("C07", propCfg{Fuzz: []string{"FuzzPrograms", "FuzzRobust"}, FuzzSeconds: 90})
 	reg("C08", propCfg{Fuzz: []string{"FuzzHistory"}, FuzzSeconds: 60})
@@ -78,7 +83,7 @@ func init() {
 	reg("C12", propCfg{Fuzz: []string{"FuzzHistories"}, FuzzSeconds: 60})
 	reg("C15", propCfg{Fuzz: []string{"FuzzTputs"}, FuzzSeconds: 60})
 	reg("C20", propCfg{Fuzz: []string{"FuzzViewport", "FuzzBoxlayout"}, FuzzSeconds: 60})
-	reg("C05", propCfg{QuickShards: 4, ReplayReps: 20})
+	reg("C05", propCfg{QuickShards: 4, ReplayReps: 20, OldTimers: true})
 	reg("C06", propCfg{QuickShards: 4, ReplayReps: 20})
 	reg("C10", propCfg{Race: true, QuickShards: 8, ReplayReps: 20})
 	reg("C19", propCfg{Wasm: true, ThorShards: 4})
@@ -359,6 +364,9 @@ func main() {
 	}
 	if replay != "" {
 		nsh = 1
+		if cfg.OldTimers {
+			nsh = 2 // the case is replayed under both timer semantics
+		}
 	}
 	if os.Getenv("VERIF_ONLY_FUZZ") != "" { // development aid: only the native fuzz stage
 		nsh = 0
@@ -401,6 +409,9 @@ func main() {
 				if cfg.ReplayReps > 0 {
 					env = append(env, "VERIF_REPLAY_REPS="+strconv.Itoa(cfg.ReplayReps))
 				}
+			}
+			if cfg.OldTimers && i%2 == 1 {
+				env = append(env, "GODEBUG=asynctimerchan=1")
 			}
 			if cfg.Race {
 				env = append(env, "GORACE=halt_on_error=0 log_path="+filepath.Join(outDir, fmt.Sprintf("race-%d", i)))
